@@ -1,22 +1,22 @@
 #!/bin/bash
 # usage: tools_seed_eval.sh <Cxx> <seed-dir-with-patch.diff> [checks-to-run...]
-# 1. confirms in a scratch worktree that the patch applies, builds and passes the existing suite
-# 2. applies it to /repo, runs the property's quick check (and any others named), restores /repo
+# In a scratch worktree of /repo's HEAD (removed afterwards; /repo itself is not touched, so several
+# evaluations can run side by side):
+# 1. confirms that the patch applies, builds and passes the existing suite
+# 2. runs the property's quick check (and any others named) against that worktree
+#    (VERIF_REPO_DIR + a harness copy whose go.mod points there; same code path as on /repo)
 set -u
-prop="$1"; dir="$2"; shift 2
+prop="$1"; dir="$(readlink -f "$2")"; shift 2
 export GOFLAGS=-mod=mod GOPROXY=off GOSUMDB=off GOTOOLCHAIN=local
-cd /repo || exit 2
-[ -n "$(git status --porcelain)" ] && { echo "repo dirty"; exit 2; }
-git apply --check "$dir/patch.diff" || { echo "PATCH-DOES-NOT-APPLY"; exit 3; }
-wt=/tmp/seedeval-$$
-git worktree add -q --detach "$wt" HEAD || exit 2
-( cd "$wt" && git apply "$dir/patch.diff" && go build ./... && go test -vet=off -count=1 ./... 2>&1 | grep -v "no test files" | tail -8 ) > /tmp/seedeval-$$.log 2>&1
-suite_rc=$?
-if grep -q "^FAIL\|^---.*FAIL\|cannot\|undefined" /tmp/seedeval-$$.log; then echo "SUITE-OR-BUILD-FAILS:"; cat /tmp/seedeval-$$.log; fi
-echo "suite with patch: $(grep -c '^ok' /tmp/seedeval-$$.log) packages ok, $(grep -c '^FAIL' /tmp/seedeval-$$.log) FAIL"
-git worktree remove --force "$wt"; rm -f /tmp/seedeval-$$.log
-git apply "$dir/patch.diff"
+root=$(mktemp -d /tmp/seedeval.XXXXXX); wt="$root/wt"; hs="$root/h"
+trap 'git -C /repo worktree remove --force "$wt" 2>/dev/null; git -C /repo worktree prune; rm -rf "$root"' EXIT
+git -C /repo worktree add -q --detach "$wt" HEAD || exit 2
+git -C "$wt" apply --check "$dir/patch.diff" || { echo "PATCH-DOES-NOT-APPLY"; exit 3; }
+( cd "$wt" && git apply "$dir/patch.diff" && go build ./... && go test -vet=off -count=1 ./... 2>&1 | grep -v "no test files" | tail -8 ) > "$root/suite.log" 2>&1
+if grep -q "^FAIL\|^---.*FAIL\|cannot\|undefined" "$root/suite.log"; then echo "SUITE-OR-BUILD-FAILS:"; cat "$root/suite.log"; fi
+echo "suite with patch: $(grep -c '^ok' "$root/suite.log") packages ok, $(grep -c '^FAIL' "$root/suite.log") FAIL"
+git -C "$wt" clean -fdq
+mkdir -p "$hs"; cp -r /verif/harness/. "$hs"/; sed -i "s|=> /repo|=> $wt|" "$hs/go.mod"
 for p in "$prop" "$@"; do
-  ( cd /verif && VERIF_EVIDENCE_DIR=/verif/.build/mutant-evidence ./vcheck "$p" quick 2>&1 | grep -E "^(VIOLATION|OK|INCONCLUSIVE|BUILD-FAILED|KNOWN|----)" | head -4 | sed "s/^/[$p] /" )
+  ( cd /verif && VERIF_REPO_DIR="$wt" VERIF_HARNESS_DIR="$hs" VERIF_EVIDENCE_DIR=/verif/.build/mutant-evidence ./vcheck "$p" quick 2>&1 | grep -E "^(VIOLATION|OK|INCONCLUSIVE|BUILD-FAILED|KNOWN|----)" | head -4 | sed "s/^/[$p] /" )
 done
-git checkout -- . ; git status --porcelain
